@@ -22,6 +22,33 @@ Proof. vm_compute. repeat split; reflexivity. Qed.
 Example ex_run_position : model_check (CPos 3 4 5 0 0 (OPos 1)) = true /\ spec_check (CPos 3 4 5 0 0 (OPos 1)) = true.
 Proof. vm_compute. split; reflexivity. Qed.
 
+(** the entry points observed on their own: Line::dist (a negative value is rejected), util::dist, util::parallel,
+    the Point operations; a struct-literal line; a failed consistency check of the executor fails both checks *)
+Example ex_run_ldist :
+  model_check (CLDist (LB 6 0 6 1) 5 0 (OVals (v1 1))) = true /\ spec_check (CLDist (LB 6 0 6 1) 5 0 (OVals (v1 1))) = true
+  /\ spec_check (CLDist (LB 6 0 6 1) 5 0 (OVals (v1 (-1)))) = false.
+Proof. vm_compute. repeat split; reflexivity. Qed.
+Example ex_run_dist :
+  model_check (CDist 0 0 3 4 (OVals (v1 5))) = true /\ spec_check (CDist 0 0 3 4 (OVals (v1 5))) = true
+  /\ spec_check (CDist 0 0 3 4 (OVals (v1 25))) = false.
+Proof. vm_compute. repeat split; reflexivity. Qed.
+Example ex_run_par :
+  model_check (CPar (LB 0 0 1 0) (LB 0 1 2 1) (OBool true)) = true /\ spec_check (CPar (LB 0 0 1 0) (LB 0 1 2 1) (OBool true)) = true
+  /\ spec_check (CPar (LB 0 0 1 0) (LB 0 1 2 1) (OBool false)) = false
+  /\ spec_check (CPar (LB 0 0 1 0) (LB 0 1 2 2) (OBool true)) = false.
+Proof. vm_compute. repeat split; reflexivity. Qed.
+Example ex_run_pt :
+  model_check (CPt 3 4 1 2 2 (OVals (v12 4 6 2 2 6 8 1.5 2 11 2 25 5))) = true
+  /\ spec_check (CPt 3 4 1 2 2 (OVals (v12 4 6 2 2 6 8 1.5 2 11 2 25 5))) = true
+  /\ spec_check (CPt 3 4 1 2 2 (OVals (v12 4 6 (-2) (-2) 6 8 1.5 2 11 2 25 5))) = false.
+Proof. vm_compute. repeat split; reflexivity. Qed.
+Example ex_run_literal_line :
+  model_check (CCL 0 0 1 (LR 0 1 0) (OTwo (-1) 0 1 0)) = true /\ spec_check (CCL 0 0 1 (LR 0 1 0) (OTwo (-1) 0 1 0)) = true
+  /\ in_scope (CCL 0 0 1 (LR 0 1 0) ONone) = true /\ in_scope (CCL 0 0 1 (LR 0 0 0) ONone) = false.
+Proof. vm_compute. repeat split; reflexivity. Qed.
+Example ex_run_fail : model_check (CLine (LB 0 0 1 0) OFail) = false /\ spec_check (CLine (LB 0 0 1 0) OFail) = false.
+Proof. vm_compute. split; reflexivity. Qed.
+
 (** ** helpers *)
 Lemma edist_axis x y : x <= y -> edist (mkPt x 0) (mkPt y 0) = y - x.
 Proof.
